@@ -30,6 +30,10 @@ func badKinds() []badKind {
 		{"map-int32-key", func() *dsl.Field {
 			return &dsl.Field{Name: "Bad", Num: 7, T: dsl.String, Card: dsl.Map, MapKey: dsl.Int32}
 		}, func(c *dsl.Config) {}},
+		{"map-int32-castkey", func() *dsl.Field {
+			// a key cast type does not make a non-string key mappable
+			return &dsl.Field{Name: "Bad", Num: 7, T: dsl.String, Card: dsl.Map, MapKey: dsl.Int32, CastKey: "Slot"}
+		}, func(c *dsl.Config) {}},
 		{"map-bool-key", func() *dsl.Field {
 			return &dsl.Field{Name: "Bad", Num: 7, T: dsl.Msg, Ref: "Tiny", Card: dsl.Map, MapKey: dsl.Bool}
 		}, func(c *dsl.Config) {}},
